@@ -111,6 +111,10 @@ def callee_full(t, resolved=True):
 # crate-internal functions that rules and spec tables refer to by name: never treated as anonymous helpers
 KNOWN_INTERNAL = {
     "common::read_to_value", "util::cbor_type_error",
+    "<ciborium::value::Value as util::ValueTryAs>::try_as_integer", "<ciborium::value::Value as util::ValueTryAs>::try_as_bytes",
+    "<ciborium::value::Value as util::ValueTryAs>::try_as_nonempty_bytes", "<ciborium::value::Value as util::ValueTryAs>::try_as_array",
+    "<ciborium::value::Value as util::ValueTryAs>::try_as_array_then_convert", "<ciborium::value::Value as util::ValueTryAs>::try_as_map",
+    "<ciborium::value::Value as util::ValueTryAs>::try_as_tag", "<ciborium::value::Value as util::ValueTryAs>::try_as_string",
     "header::Header::from_cbor_value_depth", "header::ProtectedHeader::from_cbor_bstr_depth",
     "sign::CoseSignature::from_cbor_value_depth",
 }
@@ -167,8 +171,13 @@ class Program:
         """a module-private free function / inherent method that no spec table names: rules look THROUGH such
         functions (they are an implementation detail a refactoring may introduce or remove at will)"""
         f = self.fns.get(key)
-        if f is None or f.kind not in ("Fn", "AssocFn") or not f.d.get("blocks") or f.impl_trait or f.trait_default_of:
+        if f is None or f.kind not in ("Fn", "AssocFn") or not f.d.get("blocks") or f.trait_default_of:
             return False
+        if f.impl_trait:
+            # a method of a crate-PRIVATE trait (util::ValueTryAs) that the rules do not know by name is a helper like any
+            # other private function: `value.try_as_bytes_or_null()?` added next to try_as_bytes()
+            return (not f.is_pub and f.impl_trait in self.traits and key not in KNOWN_INTERNAL
+                    and f.d.get("vis", "").startswith("Restricted(") and self.inline_mode != "none")
         if self.inline_mode == "all":
             return key not in NEVER_INLINE
         if key in self.no_inline:
